@@ -194,7 +194,7 @@ int main(int argc, char **argv) {
     c->run(cur_params, &cfg, &st);
     done++;
     tot.steps += st.steps; tot.switches += st.switches; tot.preemptions += st.preemptions; tot.stalls += st.stalls;
-    tot.spins += st.spins; tot.rand_draws += st.rand_draws; tot.clock_reads += st.clock_reads;
+    tot.spins += st.spins; tot.rand_draws += st.rand_draws; tot.clock_reads += st.clock_reads; tot.tsc_reads += st.tsc_reads;
     tot.clock_zero += st.clock_zero; tot.clock_jumps += st.clock_jumps; tot.virt_ns += st.virt_ns;
     tot.poisoned_stacks += st.poisoned_stacks; tot.poisoned_results += st.poisoned_results;
     tot.switch_pairs += st.switch_pairs; tot.drained += st.drained;
@@ -220,13 +220,13 @@ int main(int argc, char **argv) {
   printf("STATS {\"class\":\"%s\",\"seed\":%llu,\"start\":%ld,\"done\":%ld,\"wall_s\":%.3f,\"nontrivial\":%ld,"
          "\"steps\":%llu,\"switches\":%llu,\"preemptions\":%llu,\"stalls\":%llu,\"spins\":%llu,\"rand_draws\":%llu,"
          "\"clock_reads\":%llu,\"clock_zero\":%llu,\"clock_jumps\":%llu,\"virt_ns\":%llu,\"poisoned_stacks\":%llu,"
-         "\"poisoned_results\":%llu,\"switch_pairs_sum\":%llu,\"drained\":%d,",
+         "\"poisoned_results\":%llu,\"switch_pairs_sum\":%llu,\"drained\":%d,\"tsc_reads\":%llu,",
          cname, (unsigned long long)seed, start, done, wall, nontrivial, (unsigned long long)tot.steps,
          (unsigned long long)tot.switches, (unsigned long long)tot.preemptions, (unsigned long long)tot.stalls,
          (unsigned long long)tot.spins, (unsigned long long)tot.rand_draws, (unsigned long long)tot.clock_reads,
          (unsigned long long)tot.clock_zero, (unsigned long long)tot.clock_jumps, (unsigned long long)tot.virt_ns,
          (unsigned long long)tot.poisoned_stacks, (unsigned long long)tot.poisoned_results,
-         (unsigned long long)tot.switch_pairs, tot.drained);
+         (unsigned long long)tot.switch_pairs, tot.drained, (unsigned long long)tot.tsc_reads);
   printf("\"strategies\":[");
   for (int k = 0; k < MVS_N_STRATEGIES; k++) printf("%s%ld", k ? "," : "", strat_hist[k]);
   printf("],\"workers_hist\":{");
